@@ -84,4 +84,35 @@ theorem normalizeSlice_spec {n : Nat} {s ns : PSlice} (h : normalizeSlice s n = 
              · simp [pySliceIdx, pyIndices, pyRange, hp, hn, hst0, c2, c3]
                congr 1 <;> (repeat' split) <;> omega)
 
+/-- `normalize_slice` clamps `stop` to `start` for positive steps -/
+theorem normalizeSlice_clamp {n : Nat} {s ns : PSlice} (h : normalizeSlice s n = some ns) (hp : 0 < stepOf ns) :
+    (startStop n ns).1 ≤ (startStop n ns).2 := by
+  unfold normalizeSlice at h
+  cases hpi : pyIndices n s with
+  | none => simp [hpi] at h
+  | some t =>
+    rcases t with ⟨a, b, st⟩
+    obtain ⟨hst0, _, hpos, hneg⟩ := pyIndices_bounds hpi
+    simp only [hpi] at h
+    by_cases hps : 0 < st
+    · obtain ⟨ha0, ha1, hb0, hb1⟩ := hpos hps
+      simp only [hps, if_true, Option.some.injEq] at h
+      subst h
+      by_cases c1 : a = 0 <;> by_cases c2 : b ≥ (n : Int) <;> by_cases c3 : st = 1 <;> by_cases c4 : b < a <;>
+        simp [startStop, stepOf, c1, c2, c3, c4, hst0, hps, Option.getD] <;> (repeat' split) <;> omega
+    · have hn : st < 0 := by omega
+      obtain ⟨ha0, ha1, hb0, hb1⟩ := hneg hn
+      simp only [hps, if_false] at h
+      by_cases c1 : a ≥ (n : Int) - 1
+      · simp only [c1, if_true, Option.some.injEq] at h
+        subst h
+        simp [stepOf, hst0] at hp; omega
+      · by_cases c3 : a < 0
+        · simp only [c1, c3, if_true, if_false, Option.some.injEq] at h
+          subst h
+          simp [startStop, stepOf, PSlice.ofInts, Option.getD]
+        · simp only [c1, c3, if_false, Option.some.injEq] at h
+          subst h
+          simp [stepOf, hst0] at hp; omega
+
 end Dask.Slice1D
